@@ -52,7 +52,7 @@ ENTRIES = [
 ]
 
 
-def run_entries(ctx, rule, entries, usize_bits=64, tag=""):
+def run_entries(ctx, rule, entries, usize_bits=64, tag="", skip_kinds=()):
     from ..check import load_known
     known = load_known()
     total = dis = 0
@@ -63,6 +63,8 @@ def run_entries(ctx, rule, entries, usize_bits=64, tag=""):
         obs = panic.collect(eng, root)
         n_in = 0
         for o in obs:
+            if o.kind in skip_kinds:
+                continue
             if not panic.in_scope(o, untrusted, eng):
                 out_scope.append("%s [depends on %s]" % (o.key, sorted(o.scope_deps)[:3]))
                 continue
